@@ -191,6 +191,27 @@ func (p *Peer) SendCheckpoint(index types.ChainIndex, n *consensus.Network, time
 			err = errors.New("checkpoint has wrong index")
 		} else if r.Block.V2.Commitment != r.State.Commitment(r.Block.MinerPayouts[0].Address, r.Block.Transactions, r.Block.V2Transactions()) {
 			err = errors.New("checkpoint has wrong commitment")
+		} else if r.Block.V2.Height != r.State.Index.Height+1 || index.Height != r.Block.V2.Height {
+			// NOTE: neither the block ID nor the commitment covers the height
+			// field or the value of the miner payout
+			err = errors.New("checkpoint has wrong height")
+		} else {
+			want, overflow := r.State.BlockReward(), false
+			for _, txn := range r.Block.Transactions {
+				for _, fee := range txn.MinerFees {
+					var o bool
+					want, o = want.AddWithOverflow(fee)
+					overflow = overflow || o
+				}
+			}
+			for _, txn := range r.Block.V2Transactions() {
+				var o bool
+				want, o = want.AddWithOverflow(txn.MinerFee)
+				overflow = overflow || o
+			}
+			if overflow || r.Block.MinerPayouts[0].Value != want {
+				err = errors.New("checkpoint has wrong miner payout")
+			}
 		}
 	}
 	return r.State, r.Block, err
